@@ -521,6 +521,8 @@ impl FixedCapacityMemoryPool {
         loop {
             let current_packed = free_list.head.load(Ordering::Acquire);
             let (current_head, generation) = FreeListHead::unpack(current_packed);
+            #[cfg(zipora_verif)]
+            crate::verif_hooks::yield_point(400);
             
             if current_head == LIST_TAIL {
                 // Try to split from larger size class
@@ -544,6 +546,8 @@ impl FixedCapacityMemoryPool {
             }
 
             let next_offset = header.next;
+            #[cfg(zipora_verif)]
+            crate::verif_hooks::yield_point(401);
 
             // Try to update head atomically
             if free_list.head.compare_exchange_weak(
@@ -552,11 +556,15 @@ impl FixedCapacityMemoryPool {
                 Ordering::Release,
                 Ordering::Relaxed,
             ).is_ok() {
+                #[cfg(zipora_verif)]
+                crate::verif_hooks::yield_point(402);
                 free_list.count.fetch_sub(1, Ordering::Relaxed);
                 return NonNull::new(block_ptr)
                     .ok_or_else(|| ZiporaError::invalid_data("Null block pointer"));
             }
             
+            #[cfg(zipora_verif)]
+            crate::verif_hooks::yield_point(403);
             // CAS failed, retry
         }
     }
@@ -602,7 +610,11 @@ impl FixedCapacityMemoryPool {
         loop {
             let current_packed = free_list.head.load(Ordering::Acquire);
             let (current_head, generation) = FreeListHead::unpack(current_packed);
+            #[cfg(zipora_verif)]
+            crate::verif_hooks::yield_point(410);
             header.next = current_head;
+            #[cfg(zipora_verif)]
+            crate::verif_hooks::yield_point(411);
 
             if free_list.head.compare_exchange_weak(
                 current_packed,
@@ -610,9 +622,13 @@ impl FixedCapacityMemoryPool {
                 Ordering::Release,
                 Ordering::Relaxed,
             ).is_ok() {
+                #[cfg(zipora_verif)]
+                crate::verif_hooks::yield_point(412);
                 free_list.count.fetch_add(1, Ordering::Relaxed);
                 return Ok(());
             }
+            #[cfg(zipora_verif)]
+            crate::verif_hooks::yield_point(413);
         }
     }
 
